@@ -52,6 +52,7 @@ pub enum Family {
     Probe,
     SetBasic,
     SetAlgebra,
+    Serde,
     /// not tied to an operation family: ledger, hook invariants, allocator accounting
     Internal,
 }
@@ -72,6 +73,7 @@ pub fn family_of(op: &Op) -> Family {
         CloneTo { .. } | CloneFrom { .. } | SCloneTo { .. } | SCloneFrom { .. } => Family::CloneOp,
         EqCheck { .. } | DebugCheck { .. } | SDebugCheck { .. } => Family::Observer,
         Probe { .. } | SProbe { .. } => Family::Probe,
+        SerdeMap { .. } | SerdeSet { .. } => Family::Serde,
         SInsert { .. } | SReplace { .. } | SRemove { .. } | STake { .. } | SGet { .. }
         | SContains { .. } | SGetOrInsert { .. } | SGetOrInsertOwned { .. }
         | SGetOrInsertWith { .. } | SExtend { .. } | SFromIter { .. } | SClear { .. } => {
